@@ -48,6 +48,21 @@ package diskwriter
 //@   assert at call GetPacket this-packet: arg_seqno == seqno && !arg_nack && len(arg_result) == 1504 && fresh(arg_result)
 //@   assert at call writeRTP parsed: callresult("Unmarshal", 1) == nil && callresult("GetPacket", 1) != 0
 //@
+//@ -- C20: audio and video share one time origin: when the origin moves, every track's origin moves by the same duration, converted
+//@ -- at that track's own clock rate
+//@ func (*diskTrack).adjustOrigin
+//@   safe
+//@   props C20 C12
+//@   requires nonnil: t != nil && t.conn != nil && t.remote != nil
+//@   -- type invariant of a recording connection (assumed): its tracks are real and have a publisher
+//@   assume tracks: forall k int :: 0 <= k && k < len(t.conn.tracks) ==> t.conn.tracks[k] != nil && t.conn.tracks[k].remote != nil
+//@   modifies *
+//@   invariant loop 1 range: -1 <= rangeindex && rangeindex < len(old(t.conn.tracks))
+//@   invariant loop 1 tracks: t != nil && t.remote != nil && (forall k int :: 0 <= k && k < len(old(t.conn.tracks)) ==> old(t.conn.tracks)[k] != nil && old(t.conn.tracks)[k].remote != nil)
+//@   assert at call ToDuration shift: arg_tm == int64(int32(ts - uint32(old(t.origin)))) && arg_hz == icall("conn.UpTrack.Codec", t.remote).ClockRate
+//@   assert at call some shifted: valid(tt.origin) && arg_value == uint32(tt.origin) + uint32(callresult("FromDuration", 1))
+//@   assert at call FromDuration own-clock: arg_d == callresult("ToDuration", 1) && arg_hz == icall("conn.UpTrack.Codec", tt.remote).ClockRate
+//@
 //@ func requestKeyframe
 //@   trusted
 //@   why diskwriter.go: rate-limited PLI request; touches kfRequested only
